@@ -336,7 +336,7 @@ pub fn random_elf(r: &mut Rng, rich: bool) -> (ElfSpec, Built) {
     // notes
     let mut note_idx = None;
     if want(r) {
-        let al = *r.pick(&[4u64, 8, 4, 1]);
+        let al = *r.pick(&[4u64, 8, 4, 1, 3, 12, 2, 16, 6]);
         let cnt = r.below(4);
         let mut s = sec(b".note.x", SHT_NOTE, notes_bytes(r, little, al as usize, cnt)); s.align = al;
         note_idx = Some(sp.secs.len());
@@ -359,10 +359,11 @@ pub fn random_elf(r: &mut Rng, rich: bool) -> (ElfSpec, Built) {
         if class == 32 { put(&mut d, 1, 4, little); put(&mut d, 100, 4, little); put(&mut d, 4, 4, little); }
         else { put(&mut d, 1, 4, little); put(&mut d, 0, 4, little); put(&mut d, 100, 8, little); put(&mut d, 8, 8, little); }
         if r.chance(1, 5) { let k = r.below(d.len() as u64) as usize; d.truncate(k); } else { let k = r.below(12) as usize; d.extend(r.bytes(k)); }
-        let mut s = sec(b".zdebug", SHT_PROGBITS, d); s.flags = SHF_COMPRESSED; sp.secs.push(s);
+        let mut s = sec(*r.pick(&[&b".zdebug_info"[..], b".zdebug_str", b".zdebug"]), SHT_PROGBITS, d); s.flags = SHF_COMPRESSED; sp.secs.push(s);
     }
     // names that are prefixes / extensions / duplicates of each other, and a non-UTF-8 name
     if r.chance(1, 2) { sp.secs.push(sec(b".text.hot", SHT_PROGBITS, r.bytes(3))); }
+    if r.chance(1, 3) { sp.secs.push(sec(*r.pick(&[&b".debug_str"[..], b".debug_info", b".comment"]), SHT_PROGBITS, r.bytes(4))); }
     if r.chance(1, 3) { sp.secs.push(sec(b".tex", SHT_PROGBITS, r.bytes(2))); }
     if r.chance(1, 3) { sp.secs.push(sec(b".text", SHT_PROGBITS, r.bytes(5))); }
     if r.chance(1, 4) { sp.secs.push(sec(&[b'.', 0xff, 0xfe], SHT_PROGBITS, r.bytes(2))); }
@@ -389,7 +390,15 @@ pub fn random_elf(r: &mut Rng, rich: bool) -> (ElfSpec, Built) {
             }
             sp.segs.push(g);
         }
-        else if !sp.have_shdrs && r.chance(1, 2) { /* PT_DYNAMIC without sections handled below */ }
+        else if r.chance(1, 3) {
+            // PT_DYNAMIC without any SHT_DYNAMIC section: the entries live in a plain PROGBITS section
+            let mut d = Vec::new();
+            for _ in 0..r.range(1, 3) { put(&mut d, r.below(40), dynsz as usize / 2, little); put(&mut d, r.edge64(), dynsz as usize / 2, little); }
+            put(&mut d, 0, dynsz as usize / 2, little); put(&mut d, 0, dynsz as usize / 2, little);
+            let mut s = sec(b".dynbytes", SHT_PROGBITS, d); s.align = 8;
+            sp.secs.push(s);
+            sp.segs.push(Seg { ty: 2, flags: 6, sec: Some(sp.secs.len() - 1), align: 8, ..Default::default() });
+        }
         if let Some(ni) = note_idx { sp.segs.push(Seg { ty: 4, flags: 4, sec: Some(ni), align: sp.secs[ni].align, ..Default::default() }); }
         for _ in 0..r.below(3) {
             let si = r.range(1, sp.secs.len() as u64 - 1) as usize;
@@ -399,6 +408,22 @@ pub fn random_elf(r: &mut Rng, rich: bool) -> (ElfSpec, Built) {
         if sp.segs.len() > 1 && r.chance(1, 2) { sp.segs.reverse(); }
     }
     if !sp.have_shdrs { sp.ext_shnum = false; sp.ext_phnum = false; sp.ext_shstrndx = false; }
+    if r.chance(1, 2) && sp.secs.len() > 2 {
+        // the order of sections in the table is arbitrary: permute, remapping every section index
+        let n = sp.secs.len();
+        let mut perm: Vec<usize> = (0..n).collect();            // perm[old] = new ; 0 stays
+        for i in (2..n).rev() { let j = r.range(1, i as u64) as usize; perm.swap(i, j); }
+        let mut ns: Vec<Sec> = vec![Sec::default(); n];
+        for (old, s) in sp.secs.iter().enumerate() { ns[perm[old]] = s.clone(); }
+        for s in ns.iter_mut() {
+            if [SHT_DYNSYM, SHT_SYMTAB, SHT_HASH, SHT_GNU_HASH, SHT_GNU_VERSYM, SHT_GNU_VERNEED, SHT_GNU_VERDEF, SHT_DYNAMIC].contains(&s.ty) && (s.link as usize) < n {
+                s.link = perm[s.link as usize] as u32;
+            }
+        }
+        sp.secs = ns;
+        sp.shstrndx = perm[sp.shstrndx];
+        for g in sp.segs.iter_mut() { if let Some(si) = g.sec { g.sec = Some(perm[si]); } else if g.off == u64::MAX { g.memsz = perm[g.memsz as usize] as u64; } }
+    }
     let mut b = layout(&mut sp, r);
     b.sym_names = sym_names;
     b.nversym = nversym;
@@ -664,6 +689,28 @@ pub fn stream_family(r: &mut Rng, n: u64, x: &mut Exec, sink: &mut Sink, mode: &
                     }
                 }
             }
+            // long sessions: N distinct small caller-made ranges on a FRESH stream (N around powers of two: a cache
+            // that reorganises itself at a size threshold does so in the middle of a multi-range accessor), then
+            // the accessors that load several ranges before using them
+            if r.chance(1, 3) && script.len() > 2 && b.bytes.len() > 200 {
+                let flen = b.bytes.len() as u64;
+                let base_n = *r.pick(&[62u64, 126, 126, 30]);
+                for n in base_n..base_n + 4 {
+                    let mut o = script[0].clone();
+                    o["reader"] = json!({"chunk":"full","seed":1,"faults":[]});
+                    let evs2 = sink.run(x, &o);
+                    if evs2.first().map(|e| e["res"]["out"] != "ok").unwrap_or(true) { break; }
+                    for k in 0..n {
+                        let off = (k * 7) % (flen - 8);
+                        let hh = json!({"sh_name":w4(0),"sh_type":w4(1),"sh_flags":w8(0),"sh_addr":w8(0),"sh_offset":w8(off),"sh_size":w8(1 + k % 5),
+                                        "sh_link":w4(0),"sh_info":w4(0),"sh_addralign":w8(1),"sh_entsize":w8(0)});
+                        sink.run(x, &json!({"op":"sq","name":"section_data","shdr":hh}));
+                    }
+                    sink.run(x, &json!({"op":"sq","name":"symbol_table"}));
+                    sink.run(x, &json!({"op":"sq","name":"dynamic_symbol_table"}));
+                    sink.run(x, &json!({"op":"sq","name":"symbol_version_table","qs":[["req", w8(1)]]}));
+                }
+            }
             // the same queries in random orders on fresh stream objects (any order, any number of times)
             if script.len() > 2 {
                 for _ in 0..2 {
@@ -709,7 +756,7 @@ pub fn stream_family(r: &mut Rng, n: u64, x: &mut Exec, sink: &mut Sink, mode: &
                         sink.run(x, &json!({"op":"sopen","es":es,"fileslot":"file","reader":{"chunk":"full","seed":1,"faults":[]}}));
                         let q = |h: &Value| json!({"op":"sq","name":"section_data","shdr":h.clone()});
                         sink.run(x, &q(a));
-                        let mut qb = q(b); qb["faults"] = json!([[r.below(2), *r.pick(&["error", "eof"])]]);
+                        let mut qb = q(b); qb["faults"] = json!([[r.below(2), *r.pick(&["error", "eof", "wouldblock", "timedout"])]]);
                         sink.run(x, &qb);
                         sink.run(x, &q(c)); sink.run(x, &q(b)); sink.run(x, &q(c)); sink.run(x, &q(a));
                     }
@@ -726,7 +773,7 @@ pub fn stream_family(r: &mut Rng, n: u64, x: &mut Exec, sink: &mut Sink, mode: &
             }
             for _ in 0..(total / 4) { points.push((r.below(total.max(1)), *r.pick(&kinds[2..]))); }
         } else {
-            for _ in 0..12 { points.push((r.below(total.max(1)), *r.pick(&["error", "error", "eof", "short", "interrupted"]))); }
+            for _ in 0..12 { points.push((r.below(total.max(1)), *r.pick(&["error", "wouldblock", "timedout", "unexpectedeof", "eof", "short", "interrupted"]))); }
             points.push((0, "error"));
         }
         for (k, kind) in points {
@@ -763,10 +810,14 @@ pub fn prefix_family(r: &mut Rng, n: u64, x: &mut Exec, sink: &mut Sink, every: 
         if every {
             cuts = (0..full.len()).collect();
         } else {
-            let mut marks: Vec<usize> = b.fields.iter().flat_map(|(o, w, _)| vec![*o, *o + *w]).collect();
-            for s in &sp.secs { if s.nobits.is_none() { marks.push(s.off as usize); marks.push(s.off as usize + s.data.len()); } }
-            marks.sort(); marks.dedup();
-            for _ in 0..14 { let m = *r.pick(&marks); for d in [0usize, 1, 2] { let c = (m + 1).saturating_sub(d); if c < full.len() { cuts.push(c); } } }
+            let marks: Vec<usize> = b.fields.iter().flat_map(|(o, w, _)| vec![*o, *o + *w]).collect();
+            // every end of a section and of a segment (+-1): where a designated range stops fitting
+            let mut ends: Vec<usize> = Vec::new();
+            for s in &sp.secs { if s.nobits.is_none() && !s.data.is_empty() { ends.push(s.off as usize + s.data.len()); ends.push(s.off as usize + s.data.len() / 2); } }
+            for g in &sp.segs { ends.push((g.off + g.filesz) as usize); }
+            ends.sort(); ends.dedup();
+            for m in ends { for d in [0usize, 1, 2] { let c = (m + 1).saturating_sub(d); if c < full.len() { cuts.push(c); } } }
+            for _ in 0..8 { let m = *r.pick(&marks); for d in [0usize, 1, 2] { let c = (m + 1).saturating_sub(d); if c < full.len() { cuts.push(c); } } }
             for _ in 0..6 { cuts.push(r.below(full.len() as u64) as usize); }
             cuts.push(full.len() - 1);
             cuts.sort(); cuts.dedup();
@@ -799,7 +850,7 @@ pub fn locate_family(r: &mut Rng, n: u64, x: &mut Exec, sink: &mut Sink) {
     for _ in 0..n {
         let class = *r.pick(&[32u64, 64]);
         let little = r.chance(1, 2);
-        let nsec: usize = *r.pick(&[1usize, 2, 5, 0xfeff, 0xff00, 0xff01, 0xff20, 3, 4]);
+        let nsec: usize = *r.pick(&[1usize, 2, 5, 0xfeff, 0xff00, 0xff01, 0xff20, 3, 4, 0x10000, 0x10003]);
         let nseg: usize = *r.pick(&[0usize, 1, 3, 0xfffe, 0xffff, 0x10000, 0x10010, 2]);
         let mut sp = ElfSpec { class, little, have_shdrs: true, have_phdrs: nseg > 0, tables_early: r.chance(1, 2), ..Default::default() };
         sp.secs.push(Sec::default());
